@@ -31,7 +31,8 @@ func (c07) Meta() fw.Meta {
 			"32-bit overflow families (sizes/offsets beyond 2^32, wrapping consistently; total sizes within a few slots of 2^32 bytes; retentions beyond 2^31; steps beyond 2^31); methods 0..9; xFilesFactor over float32 bit-pattern classes (+-0, denormals, 1, next after 1, -eps, +-Inf, NaNs). " +
 			"Each candidate goes to NewHeader, Create (size <= 64 MiB), ParseArchiveInfoList (when expressible), Header.TakeFrom and Open of a sparse file carrying the format-prescribed header, and (sampled) the CLI flags through the real binary; " +
 			"all must agree with the predicate valid() written from the statement; accepted ones are created, synced, reopened and compared field by field with the bytes on disk. " +
-			"non-trivial = batch contained accepted and rejected candidates in every entry point; distinct by candidate set.",
+			"non-trivial = batch contained accepted and rejected candidates in every entry point; distinct by candidate set." +
+			" NewHeader/Create also receive the candidate list by other routes (prefix of a longer parsed list, parsed list extended, list of a header built before, backing array used by a shorter header); Header.TakeFrom also decodes into a receiver used for every earlier candidate.",
 		Assumptions: []string{
 			"a file of exactly 2^32 bytes (slots addressable, size needs 33 bits) is the only undecided value (counted as band_dontcare); larger files are invalid because slot offsets are computed in the format's 32-bit offset arithmetic",
 			"Open/TakeFrom are given headers with the offsets the format prescribes (low 32 bits when the true offset overflows)",
